@@ -583,7 +583,7 @@ func c08RunTrace(c *c08Case) []Failure {
 		for _, n := range wantPush {
 			nwant += n
 		}
-		for i := 0; i < 100; i++ { // push callbacks run in their receiver goroutines: up to 2 s
+		for i := 0; i < 500; i++ { // push callbacks run in their receiver goroutines: up to 10 s
 			log.mu.Lock()
 			got := 0
 			for _, e := range log.ev {
@@ -938,7 +938,27 @@ func c08Coq(c *c08Case) string {
 		return fmt.Sprintf("KMt ((%d)%%Z, %s, (%d)%%Z)", c.Start, c08Zs(c.IDs), c.Final)
 	}
 	nad, ls, outs, snaps := c08Labels(c)
-	return fmt.Sprintf("KTrace (%d%%nat, %s, %s, %s, %s)", nad, ls, outs, snaps, c08Zs(c.Pending))
+	// connections whose adapter has a push callback (those of proxy 0's callers) and what the callback saw
+	var pads, pushes []string
+	if c.Push {
+		nprox := c.Proxies
+		if nprox < 1 {
+			nprox = 1
+		}
+		seen := map[int]bool{}
+		for k, ci := range c.ConnOf {
+			if k%nprox == 0 && ci >= 0 && ci < c.NConn && !seen[ci] {
+				seen[ci] = true
+				pads = append(pads, fmt.Sprintf("%d%%nat", ci))
+			}
+		}
+		for _, e := range c.Events {
+			if e.Kind == "push" {
+				pushes = append(pushes, fmt.Sprintf("%d%%N", e.Pay))
+			}
+		}
+	}
+	return fmt.Sprintf("KTrace (%d%%nat, %s, %s, %s, %s, ([%s], [%s]))", nad, ls, outs, snaps, c08Zs(c.Pending), strings.Join(pads, "; "), strings.Join(pushes, "; "))
 }
 
 func c08Gen(tier string, rng *rand.Rand) []c08Case {
